@@ -484,12 +484,12 @@ def run(ctx):
         cases.append(("corpus", name, data, exp))
         ncorp += 1
     sh = Shapes(rng, shist)
-    for _ in range(30000 if big else 2500):
+    for _ in range(120000 if big else 2500):
         text, root = sh.document()
         cases.append(("shape", "", text.encode(), ("full", ["doc"] + walk_shape(root))))
     g = docgen.Gen(rng, hist)
     docs = []
-    for _ in range(30000 if big else 2500):
+    for _ in range(120000 if big else 2500):
         moved = hist.get("doc:super-after-sub", 0)
         text, tree = g.document()
         b = text.encode("utf-8")
@@ -502,7 +502,7 @@ def run(ctx):
         else:
             cases.append(("docgen", "", b, ("leaves", leaves_docgen(tree, []))))
     pool = docs[:800] + [c[2] for c in cases if c[0] in ("corpus", "shape")][:1200]
-    for _ in range(60000 if big else 4000):
+    for _ in range(240000 if big else 4000):
         cases.append(("mutation", "", docgen.mutate(rng, rng.choice(pool)), None))
 
     lines = [h(c[2]) for c in cases]
